@@ -176,8 +176,10 @@ def _frame(ctx, SPEC):
             if good:
                 sh = hq.peel(rhs["r"])
                 val = hq.peel(rhs["l"])
-                good = sh.get("k") == "Binary" and sh["op"] == "*" and \
-                    ((H.lit_val(sh["l"]) == 8 and is_local(sh["r"], ilid)) or (H.lit_val(sh["r"]) == 8 and is_local(sh["l"], ilid)))
+                # 8 * i, in normal form i << 3
+                good = sh.get("k") == "Binary" and \
+                    ((sh["op"] == "*" and ((H.lit_val(sh["l"]) == 8 and is_local(sh["r"], ilid)) or (H.lit_val(sh["r"]) == 8 and is_local(sh["l"], ilid)))) or
+                     (sh["op"] == "<<" and H.lit_val(sh["r"]) == 3 and is_local(sh["l"], ilid)))
                 v0 = hq.peel(val["e"]) if val.get("k") == "Cast" else val
                 if blid is None:
                     good = good and v0.get("k") == "Index" and is_local(v0["idx"], ilid)
@@ -233,8 +235,9 @@ def _frame(ctx, SPEC):
         E = "((self.window_descriptor >> 3) as u64)"
         M_ = "((7 & self.window_descriptor) as u64)"
         base = "(1 << (%s + %d))" % (E, wd["log_base"])
-        accept = {"(%s + (%s * (%s / 8)))" % (base, M_, base), "(%s + ((%s / 8) * %s))" % (base, base, M_),
-                  "((%s * (%s / 8)) + %s)" % (M_, base, base), "(((%s / 8) * %s) + %s)" % (base, M_, base)}
+        eighth = "(%s >> 3)" % base                  # base / 8 in normal form
+        accept = {"(%s + (%s * %s))" % (base, M_, eighth), "(%s + (%s * %s))" % (base, eighth, M_),
+                  "((%s * %s) + %s)" % (M_, eighth, base), "((%s * %s) + %s)" % (eighth, M_, base)}
         ctx.check(ws in accept, RW, "reader::formula", body["file"],
                   "window size must be (1 << (10+exp)) + ((1 << (10+exp)) / 8) * mantissa", observed=ws, expected=sorted(accept)[0])
         mn = ctx.const("ruzstd::common::MIN_WINDOW_SIZE")
